@@ -9,51 +9,83 @@ Import ListNotations.
 Require Import QtlVerif.AmalgamDefs QtlVerif.AmalgamProofs.
 Local Open Scope N_scope.
 
-(* included_once.  Full statement: no file body is emitted twice, i.e.
-     forall t, NoDup (emitted_files t).
-   That is FALSE of the generator (C20_included_once_refuted: the root sources are not entered into
-   included_files, so a source that includes src/qtlogger/qtlogger.h gets its body again).  Proved:
-   the include set holds every path once, for every tree — hence every file emitted THROUGH an include
-   directive is emitted once; checks/c20.py evaluates NoDup (emitted_files t) on the current tree. *)
-Theorem C20_included_once_partial : forall t, NoDup (included_files t).
+(* included_once: no file body is emitted twice.  For arbitrary trees this is FALSE of the generator
+   (C20_included_once_unconditional_refuted: the root sources are not entered into included_files, so a
+   source that includes src/qtlogger/qtlogger.h gets its body again).  It holds in full under the
+   hypothesis that is true of the real tree and that checks/c20.py evaluates on every run: no root
+   source (qtlogger.h, the .cpp files) is in the include set.  (NoDup (map fst t): the tree is a map.) *)
+Theorem C20_included_once : forall t,
+  NoDup (map fst t) ->
+  (forall p, In p (sources t) -> ~ In p (included_files t)) ->
+  NoDup (emitted_files t).
 Proof. exact included_once. Qed.
-Print Assumptions C20_included_once_partial.
+Print Assumptions C20_included_once.
 
-Theorem C20_included_once_refuted : exists t, ~ NoDup (emitted_files t).
+Theorem C20_included_once_set : forall t, NoDup (included_files t).
+Proof. exact included_once_set. Qed.
+Print Assumptions C20_included_once_set.
+
+Theorem C20_included_once_unconditional_refuted : exists t, NoDup (map fst t) /\ ~ NoDup (emitted_files t).
 Proof.
-  exists tiny_tree. vm_compute. intros H. inversion H as [|x l Hn _]. apply Hn. right. left. reflexivity.
+  exists tiny_tree. split.
+  - vm_compute. constructor; [intros [E|[]]; discriminate E|constructor; [intros []|constructor]].
+  - vm_compute. intros H. inversion H as [|x l Hn _]. apply Hn. right. left. reflexivity.
 Qed.
-Print Assumptions C20_included_once_refuted.
+Print Assumptions C20_included_once_unconditional_refuted.
 
 Theorem C20_emitted_are_sources_or_included : forall t p,
   In p (emitted_files t) -> In p (sources t) \/ In p (included_files t).
 Proof. exact emitted_are_sources_or_included. Qed.
 Print Assumptions C20_emitted_are_sources_or_included.
 
-(* closure_complete.  Full statement: every file reachable from a root source through local include
-   directives is emitted.  Reachability has no static definition for this generator: a directive is
-   resolved against the GLOBAL include_dir, which depends on what was expanded before it.  Proved, for
-   every tree: (a) a directive the scan stands on and can resolve puts its target into the include
-   set, (b) the include set only grows (so the target is still there at the end), (c) every included
-   path that is a file has had its content scanned — unless the nesting fuel of the model ran out,
-   which the driver reports (starved, never on the real tree).  Missing: that the scan stands on
-   every directive of a file (it does, except inside an earlier match) and fuel sufficiency. *)
-Theorem C20_closure_step_partial : forall t fuel c r keep g out inc mlen q,
+(* fuel sufficiency: the nesting fuel [fuel_for t] never runs out, for any tree.  Measure: every nested
+   expansion is entered with one more path in the include set, which is duplicate-free and consists of
+   paths that exist in the tree (files and directories on the way to them), so the nesting depth is at
+   most |all_paths t| < fuel_for t. *)
+Theorem C20_fuel_sufficient : forall t, starved (snd (expand t)) = false.
+Proof. exact never_starved. Qed.
+Print Assumptions C20_fuel_sufficient.
+
+(* closure_complete.  A static notion of reachability does not exist for this generator: a directive is
+   resolved against the GLOBAL include_dir, which is whatever directory the most recently entered file
+   lives in — the same directive text in the same file resolves differently depending on what was
+   expanded before it (C20_resolution_is_dynamic below).  Completeness is therefore stated against the
+   trace the expansion itself produces: [directives_met] logs EVERY directive the scan stands on (the
+   only place in [scan] where match_include succeeds), with the directory it was resolved against and
+   the result.  Proved for every tree: whatever such a directive resolved to is in the include set, and
+   if it is a file its body has been emitted (no fuel hypothesis any more). *)
+Theorem C20_closure_complete_dynamic : forall t dir inc q,
+  In (dir, inc, Some q) (directives_met t) ->
+  In q (included_files t) /\ (is_file t q = true -> In q (emitted_files t)).
+Proof. exact closure_complete_dynamic. Qed.
+Print Assumptions C20_closure_complete_dynamic.
+
+Theorem C20_closure_included_file_is_emitted : forall t q,
+  In q (included_files t) -> is_file t q = true -> In q (emitted_files t).
+Proof. exact included_file_is_emitted. Qed.
+Print Assumptions C20_closure_included_file_is_emitted.
+
+Theorem C20_closure_step : forall t fuel c r keep g out inc mlen q,
   match_include (c :: r) = Some (inc, mlen) -> resolve t (include_dir g) inc = Some q ->
   In q (included (snd (scan t (process fuel t) (c :: r) O keep g out))).
 Proof. exact (fun t fuel => scan_closure_step t (process fuel t) (process_mono t fuel)). Qed.
-Print Assumptions C20_closure_step_partial.
+Print Assumptions C20_closure_step.
 
 Theorem C20_include_set_only_grows : forall t fuel p g out q,
   In q (included g) -> In q (included (snd (process fuel t p g out))).
 Proof. exact (fun t fuel p g out q H => proj1 (process_mono t fuel p g out) q H). Qed.
 Print Assumptions C20_include_set_only_grows.
 
-Theorem C20_closure_included_file_is_emitted_partial : forall t q,
-  starved (snd (expand t)) = false ->
-  In q (included_files t) -> is_file t q = true -> In q (emitted_files t).
-Proof. exact included_file_is_emitted. Qed.
-Print Assumptions C20_closure_included_file_is_emitted_partial.
+(* the same directive, in the same file, unresolvable before and resolvable after another include:
+   qtlogger.h = include x.h / include sub/a.h / include x.h, with sub/a.h and sub/x.h in the tree *)
+Definition dynamic_tree : tree :=
+  [ ([[115;114;99]; [113;116;108;111;103;103;101;114]; [113;116;108;111;103;103;101;114;46;104]], [35;105;110;99;108;117;100;101;32;34;120;46;104;34;10] ++ [35;105;110;99;108;117;100;101;32;34;115;117;98;47;97;46;104;34;10] ++ [35;105;110;99;108;117;100;101;32;34;120;46;104;34;10]);
+    ([[115;114;99]; [113;116;108;111;103;103;101;114]; [115;117;98]; [97;46;104]], [105;110;116;32;97;59;10]);
+    ([[115;114;99]; [113;116;108;111;103;103;101;114]; [115;117;98]; [120;46;104]], [105;110;116;32;120;59;10]) ].
+Example C20_resolution_is_dynamic :
+  map (fun e => (snd (fst e), snd e)) (directives_met dynamic_tree)
+  = [ ([120;46;104], None); ([115;117;98;47;97;46;104], Some [[115;114;99]; [113;116;108;111;103;103;101;114]; [115;117;98]; [97;46;104]]); ([120;46;104], Some [[115;114;99]; [113;116;108;111;103;103;101;114]; [115;117;98]; [120;46;104]]) ].
+Proof. vm_compute. reflexivity. Qed.
 
 (* body_preserved.  Full statement: every non-include, non-copyright, non-pragma-once line of every
    emitted file occurs in the output, in order.  Proved, for every tree, every file and every nesting
